@@ -64,7 +64,7 @@ func c10HandleReqs() []c10HReq {
 }
 
 // c10RunHandle opens a fresh handle of the kind on path p, sends the request and judges the calls.
-func c10RunHandle(x *c10Sess, hk c10HandleKind, p string, r c10HReq, bogus bool) (problems []c10Problem, outcome string, err error) {
+func c10RunHandle(x *c10Sess, hk c10HandleKind, p string, r c10HReq, bogus bool, pre string) (problems []c10Problem, outcome string, err error) {
 	bad := func(aspect, format string, a ...any) {
 		problems = append(problems, c10Problem{aspect, fmt.Sprintf(format, a...)})
 	}
@@ -87,6 +87,16 @@ func c10RunHandle(x *c10Sess, hk c10HandleKind, p string, r c10HReq, bogus bool)
 	}
 	cp := c10Clean(x.base, p)
 	var calls []c10Call
+	// an attribute request on the handle first: what it does must not change how the handle serves what follows
+	switch pre {
+	case "FSTAT":
+		_, _, err = x.do(sshFxpFstat, h)
+	case "FSETSTAT":
+		_, _, err = x.do(sshFxpFsetstat, h, uint32(sshFileXferAttrPermissions), c10AttrBytes(sshFileXferAttrPermissions))
+	}
+	if err != nil {
+		return nil, "", err
+	}
 	switch r.Name {
 	case "READ":
 		f, calls, err = x.do(sshFxpRead, use, r.Off, r.Len)
@@ -545,30 +555,38 @@ func init() {
 				for _, p := range paths {
 					for _, r := range reqs {
 						for _, bogus := range []bool{false, true} {
-							res.Evaluations++
-							res.Distinct++
-							problems, outcome, err := c10RunHandle(x, hk, p, r, bogus)
-							rp := map[string]any{"handle_kind": hk.Name, "start": st, "path": p, "req": r.Name, "off": r.Off, "len": r.Len, "data_hex": hex.EncodeToString([]byte(r.Data)), "attr_flags": r.Aflags, "unknown_handle": bogus}
-							if err != nil {
-								res.Violate("C10", "c10-in-handle:"+r.Name+":exchange", fmt.Sprintf("%v: %v", rp, err), rp, nil)
-								x.close()
-								if x, bad = c10Open(hk.Caps, st); bad != "" {
-									res.EngineError = bad
-									return res
+							for _, pre := range []string{"", "FSTAT", "FSETSTAT"} {
+								if pre != "" && (bogus || p != "/f") {
+									continue
 								}
-								continue
-							}
-							res.Outcome(outcome)
-							for _, pr := range problems {
-								key := "c10-in-handle:" + r.Name + ":" + pr.aspect
-								if pr.aspect == "mismatch" || pr.aspect == "mismatch-status" {
-									tgt := hk.Obj
-									if bogus {
-										tgt = "unknown"
+								res.Evaluations++
+								res.Distinct++
+								problems, outcome, err := c10RunHandle(x, hk, p, r, bogus, pre)
+								rp := map[string]any{"handle_kind": hk.Name, "start": st, "path": p, "req": r.Name, "off": r.Off, "len": r.Len, "data_hex": hex.EncodeToString([]byte(r.Data)), "attr_flags": r.Aflags, "unknown_handle": bogus, "preceded_by": pre}
+								if err != nil {
+									res.Violate("C10", "c10-in-handle:"+r.Name+":exchange", fmt.Sprintf("%v: %v", rp, err), rp, nil)
+									x.close()
+									if x, bad = c10Open(hk.Caps, st); bad != "" {
+										res.EngineError = bad
+										return res
 									}
-									key = "c10-in-mismatch:" + r.Name + "-on-" + tgt
+									continue
 								}
-								res.Violate("C10", key, fmt.Sprintf("start=%q path=%q: %s", st, p, pr.msg), rp, nil)
+								res.Outcome(outcome)
+								for _, pr := range problems {
+									key := "c10-in-handle:" + r.Name + ":" + pr.aspect
+									if pr.aspect == "mismatch" || pr.aspect == "mismatch-status" {
+										tgt := hk.Obj
+										if bogus {
+											tgt = "unknown"
+										}
+										key = "c10-in-mismatch:" + r.Name + "-on-" + tgt
+									}
+									if pre != "" {
+										key += ":after-" + pre
+									}
+									res.Violate("C10", key, fmt.Sprintf("start=%q path=%q (preceded by %q on the same handle): %s", st, p, pre, pr.msg), rp, nil)
+								}
 							}
 						}
 					}
